@@ -252,7 +252,7 @@ pub fn gen_case(seed: u64, idx: u64) -> Case {
         5..=7 => need + 1,
         _ => need + 3,
     };
-    let min_girth = *g.pick(&[None, None, Some(4), Some(6), Some(6), Some(8)]);
+    let min_girth = *g.pick(&[None, None, Some(4), Some(5), Some(6), Some(6), Some(7), Some(8)]);
     let mn = MnConfig {
         nrows,
         ncols,
@@ -529,7 +529,7 @@ fn minimise(case: &Case, kind: &str) -> Case {
 pub fn main(opts: &Opts) -> ! {
     let t0 = std::time::Instant::now();
     let (n, npeg, budget) = match opts.tier {
-        Tier::Quick => ((6000.0 * opts.scale) as u64, (6000.0 * opts.scale) as u64, 200.0),
+        Tier::Quick => ((12_000.0 * opts.scale) as u64, (12_000.0 * opts.scale) as u64, 200.0),
         Tier::Thorough => ((240_000.0 * opts.scale) as u64, (300_000.0 * opts.scale) as u64, 2400.0),
     };
     struct Acc {
